@@ -147,6 +147,8 @@ func (in *Interp) eval(a *act, n *gen.Node) *Value {
 		in.compDef[c.Comp] = n
 		a.vars[n.S] = c
 		return c
+	case "setidx", "setattr", "setca", "setslice", "setthis":
+		return in.assign(a, n)
 	case "dice":
 		return in.evalDice(a, n)
 	case "fate":
@@ -165,9 +167,6 @@ func (in *Interp) eval(a *act, n *gen.Node) *Value {
 		refuse("%s dice are not modelled", n.K)
 	case "none":
 		refuse("missing operand")
-	}
-	if isNonValueAssign(n.K) {
-		refuse("value of a %s assignment used as an expression", n.K)
 	}
 	refuse("node kind %q as expression", n.K)
 	return nil
